@@ -46,6 +46,7 @@ structure Dump where
   rx : List String := []
   tx : List (String × Nat) := []
   txUnarmed : List String := []     -- outstanding requests without a running retransmission timer
+  rxUnarmed : List String := []     -- retained receive transactions without a running retention timer
   txseq : Nat := 0
   dp : List (Nat × String × Nat) := []
 deriving Repr, BEq
@@ -93,6 +94,7 @@ def parseDump (line : String) : Dump :=
     txUnarmed := (listOf (lookD m "tx" "_")).filterMap fun t => match splitOn1 t '/' with
       | [k, _, "-"] => some k
       | _ => none,
+    rxUnarmed := listOf (lookD m "rxu" "_"),
     txseq := hexD (lookD m "txseq" "0"),
     dp := (listOf (lookD m "dp" "_")).filterMap fun t => match splitOn1 t '/' with
       | [s, k, i] => some (hexD s, k, natD i)
@@ -367,6 +369,22 @@ def check (ps : PState) (evLine : String) (obs : List String) (fault : Option St
             let got := listOf (lookD s.f "created" "_")
             if got != want then
               fs := fs ++ [s!"C08 the Session Establishment Response's Created PDR IEs are {reprStr got}; the PDRs the request created with a UE IP address are {reprStr want}"]
+    -- C03: every Update QER / Update URR / Update BAR IE of a Modification Request for a rule the session has is handed to the
+    -- data plane — under the session's SEID, with that rule id, once per IE — whatever was sent for that id earlier
+    if typ == "recv" && kind == "mod" && !isDup then
+      match prev.live seid with
+      | none => pure ()
+      | some ds =>
+        for (key, k) in [("uqer", "qer"), ("uurr", "urr"), ("ubar", "bar")] do
+          let ids := ((listOf (lookD m key "_")).map fun t => (splitOn1 t '/').headD "-").filterMap parseId
+          -- rules created or removed in this very request are left to the lock-step comparison
+          let touchedHere := (["c" ++ k, "r" ++ k].flatMap fun kk => ((listOf (lookD m kk "_")).map fun t => (splitOn1 t '/').headD "-").filterMap parseId)
+          for i in ids.eraseDups do
+            if (ds.ids k).contains i && !touchedHere.contains i then
+              let want := (ids.filter (· == i)).length
+              let got := (dps.filter fun x => x.1 == seid && x.2.1 == "update" && x.2.2.1 == k && x.2.2.2.1 == i).length
+              if got != want then
+                fs := fs ++ [s!"C03 the request carries {want} Update {k.toUpper} IE(s) for rule {i} of session {hexN seid}; {got} reached the data plane"]
     -- C08: a request answered with an error cause, or not at all, leaves no trace
     if typ == "recv" && kind ∈ ["est", "mod", "del"] && !isDup then
       let accepted := sends.any fun s => s.kind != "srreq" && lookD s.f "cause" "" == "1"
@@ -390,6 +408,10 @@ def check (ps : PState) (evLine : String) (obs : List String) (fault : Option St
         if d.tx.length != prev.tx.length || !sessUnchanged [] || d.dp != prev.dp then
           fs := fs ++ ["C09 a response matching no outstanding request had an effect"]
     -- C09: an outstanding request is retried or abandoned only by its timer: every one must have a timer running
+    -- C06: the bookkeeping of a received request is released when its retention window ends — answered or not: every entry
+    -- has its retention timer running from the moment it exists
+    for k in d.rxUnarmed do
+      fs := fs ++ [s!"C06 the receive transaction {k} has no retention timer running: its entry is never released, and every later request of that peer with this sequence number is taken for a retransmission"]
     for k in d.txUnarmed do
       fs := fs ++ [s!"C09 outstanding request {k} has no retransmission timer running: it can neither be retried nor abandoned"]
     if typ == "tmo" && lookD m "k" "" == "tx" then
@@ -644,13 +666,21 @@ def check (ps : PState) (evLine : String) (obs : List String) (fault : Option St
         -- C04: a SEID whose session was swept away by the re-association of its node resolves to nothing from then on
         -- (histories with a takeover are left to C05: the takeover finding moves sessions between node objects)
         if !ps.hadTakeover then
+          -- C01: … and none of its rules stays behind in the data plane
+          for up in expected do
+            let left := d.dp.filter (·.1 == up)
+            if !left.isEmpty then
+              fs := fs ++ [s!"C01 the re-association of node {n} ended session {hexN up}; {left.length} of its rules are still in the data plane ({String.intercalate "," (left.map fun e => s!"{e.2.1}/{e.2.2}")})"]
           for up in expected do
             if !actual.contains up then
               fs := fs ++ [s!"C04 SEID {hexN up} still resolves to a session after the re-association of node {n}, which ends every session of that node: requests for it are no longer answered 'session context not found'"]
     -- sessions that are gone are nobody's
     own := own.filter fun e => (d.live e.1).isSome
     return (own, fs)
-  let isTakeover := typ == "recv" && kind == "mod" && lookD m "node" "-" != "-" && !isDup && (prev.live seid).isSome
+  -- a Modification Request whose Node ID is the one the session already belongs to takes nothing over (an SMF may always
+  -- send its own Node ID): only a different node id is a takeover
+  let isTakeover := typ == "recv" && kind == "mod" && lookD m "node" "-" != "-" && !isDup && (prev.live seid).isSome &&
+    (ps.own.find? (·.1 == seid)).map (·.2) != some (lookD m "node" "-")
   -- sessions whose node object has surely not been renamed by somebody else's takeover: a takeover (the mechanism renames
   -- the whole node object — known finding takeoverNode, C05) leaves only the session taken over; sessions established
   -- later are added again
@@ -719,7 +749,7 @@ def check (ps : PState) (evLine : String) (obs : List String) (fault : Option St
     -- sessions that are gone
     t := t.filter fun e => (d.live e.1.1).isSome
     return t
-  let hadTakeover' := ps.hadTakeover || (typ == "recv" && kind == "mod" && lookD m "node" "-" != "-" && !isDup && (prev.live seid).isSome)
+  let hadTakeover' := ps.hadTakeover || isTakeover
   let fails := fails ++ c11fails ++ c12fails ++ c10fails ++ c10dest ++ c05fails
   -- bookkeeping for the next event
   let cache' := if typ == "recv" && kind ∈ ["hb", "assoc", "est", "mod", "del", "other"] && !isDup then
